@@ -1369,6 +1369,12 @@ class XMLSchemaBase(XsdValidator, ElementPathMixin[Union[SchemaType, XsdElement]
                     yield context.missing_element_error(validation, self, elem, path, schema_path)
                     return
 
+            if elem is not resource.root and ancestors:
+                # The namespace declarations of the ancestors and of the element itself
+                for level, ancestor in enumerate(ancestors):
+                    context.converter.set_xmlns_context(ancestor, level)
+                context.converter.set_xmlns_context(elem, len(ancestors))
+
             try:
                 xsd_element.raw_decode(elem, validation, context)
             except XMLSchemaStopValidation:
